@@ -597,9 +597,12 @@ pub fn get_value(
         Some(Function::Substring) => {
             let string = String::from(&function_arg);
 
-            let mut pos: i32 = match &function_args.is_empty() {
-                true => 0,
-                false => *&function_args[0].parse::<i32>().unwrap() - 1,
+            let mut pos: i32 = match function_args.first() {
+                None => 0,
+                Some(pos) => match pos.parse::<i32>() {
+                    Ok(pos) => pos.saturating_sub(1),
+                    _ => return Variant::empty(VariantType::String),
+                },
             };
 
             if pos < 0 {
@@ -608,18 +611,25 @@ pub fn get_value(
             }
 
             let len = match &function_args.get(1) {
-                Some(len) => len.parse::<usize>().unwrap(),
-                _ => 0,
+                Some(len) => match len.parse::<usize>() {
+                    Ok(len) => Some(len),
+                    _ => return Variant::empty(VariantType::String),
+                },
+                _ => None,
             };
 
-            let result = match len > 0 {
-                true => string.chars().skip(pos as usize).take(len).collect(),
-                false => string.chars().skip(pos as usize).collect(),
+            let result = match len {
+                Some(len) => string.chars().skip(pos as usize).take(len).collect(),
+                None => string.chars().skip(pos as usize).collect(),
             };
 
             Variant::from_string(&result)
         }
         Some(Function::Replace) => {
+            if function_args.len() < 2 {
+                return Variant::empty(VariantType::String);
+            }
+
             let source = function_arg;
             let from = &function_args[0];
             let to = &function_args[1];
@@ -659,7 +669,10 @@ pub fn get_value(
             match function_arg.parse::<f64>() {
                 Ok(val) => {
                     let power = match function_args.first() {
-                        Some(power) => power.parse::<f64>().unwrap(),
+                        Some(power) => match power.parse::<f64>() {
+                            Ok(power) => power,
+                            _ => return Variant::empty(VariantType::String),
+                        },
                         _ => 0.0,
                     };
 
@@ -676,7 +689,10 @@ pub fn get_value(
             match function_arg.parse::<f64>() {
                 Ok(val) => {
                     let base = match function_args.first() {
-                        Some(base) => base.parse::<f64>().unwrap(),
+                        Some(base) => match base.parse::<f64>() {
+                            Ok(base) => base,
+                            _ => return Variant::empty(VariantType::String),
+                        },
                         _ => 10.0,
                     };
 
@@ -763,7 +779,10 @@ pub fn get_value(
                 return Variant::empty(VariantType::String);
             }
 
-            let seconds = function_arg.parse::<u64>().unwrap();
+            let seconds = match function_arg.parse::<u64>() {
+                Ok(seconds) => seconds,
+                _ => return Variant::empty(VariantType::String),
+            };
             let formatted = Duration::from_secs(seconds).to_human_time_string();
             Variant::from_string(&formatted)
         }
